@@ -243,6 +243,7 @@ type scenario struct {
 	badconn      int
 	parkHooks    bool
 	badconnTx    bool
+	holdBack     bool
 }
 
 func (sc scenario) String() string {
@@ -254,8 +255,8 @@ func (sc scenario) String() string {
 		}
 		ws = append(ws, fmt.Sprintf("w%d[%s]", i+1, strings.Join(ops, ",")))
 	}
-	return fmt.Sprintf("%s resets=%d closeEarly=%v sessionLevel=%v maxOpen=%d prepareFailures<=%d badConn<=%d hookWindows=%v badConnInTx=%v",
-		strings.Join(ws, " "), sc.resets, sc.closeEarly, sc.sessionLevel, sc.maxOpen, sc.failBudget, sc.badconn, sc.parkHooks, sc.badconnTx)
+	return fmt.Sprintf("%s resets=%d closeEarly=%v sessionLevel=%v maxOpen=%d prepareFailures<=%d badConn<=%d hookWindows=%v badConnInTx=%v holdBackOneExecution=%v",
+		strings.Join(ws, " "), sc.resets, sc.closeEarly, sc.sessionLevel, sc.maxOpen, sc.failBudget, sc.badconn, sc.parkHooks, sc.badconnTx, sc.holdBack)
 }
 
 func genScenario(r *core.Rand) scenario {
@@ -295,6 +296,7 @@ func execute(c *core.Ctx, sc scenario, r *core.Rand, forced []int) outcome {
 	s.failBudget, s.badconnBudget, s.parkHooks, s.forced = sc.failBudget, sc.badconn, sc.parkHooks, forced
 	s.verbose = c.Verbose
 	s.badconnTxFirst = sc.badconnTx
+	s.holdBack = sc.holdBack
 	s.systematic = forced != nil
 	w := openWorld(c, s, sc.sessionLevel, sc.maxOpen)
 	out := outcome{sc: sc, results: make([][]opResult, len(sc.workers))}
@@ -525,6 +527,17 @@ func run(c *core.Ctx) {
 			sc.workers = [][]opKind{{"TXEXEC"}, {"EXEC", "EXEC"}, {"EXEC"}}
 		}
 		sc.resets, sc.failBudget, sc.badconn, sc.badconnTx, sc.sessionLevel = 0, 0, 1, true, false
+	case 5, 6:
+		// one execution stays in flight at the driver until everybody else has returned, another
+		// execution of the same statement meets a bad connection (eviction), a third worker uses the cache
+		sc.workers = [][]opKind{{"EXEC"}, {"EXEC"}, {core.Pick(r, []opKind{"QB", "QA", "FIND"})}}
+		if r.Bool() {
+			sc.workers = append(sc.workers, []opKind{"EXEC", "QA"})
+		}
+		// (no Reset / early Close here: closing statements that are still in use makes their users wait for
+		// each other - KF-C14-1 - which is not what this scenario is about)
+		sc.resets, sc.closeEarly, sc.failBudget, sc.badconn, sc.sessionLevel, sc.parkHooks = 0, false, 0, 1, r.Chance(1, 4), false
+		sc.holdBack = true
 	case 2:
 		// Reset while preparations are in flight
 		sc.workers = [][]opKind{{"QA", "QB"}, {"QA", "QB"}, {"QB", "QA"}}
@@ -630,7 +643,7 @@ func postChild(dir string, batch int, res *core.Result) { core.ScanRaceLogs(dir,
 var Engine = &core.Engine{
 	ID:    "C14",
 	Level: "exploration",
-	Rule: "scenario = 2..4 workers x 1..3 operations (raw queries on two texts, model query, update, Row() reads of the worker's own counter, transactions with one and two statements incl. increment-then-Row()) x 0..2 Reset() + Close() (early or at the end) x {config-level PrepareStmt, session-level PrepareStmt with a session derived per operation} x prepare failures (<=2) x ErrBadConn (<=1) x parking of the three windows inside prepare() on/off; three dedicated scenarios (single-connection pool, one text + failing preparation, Reset during in-flight preparations); " +
+	Rule: "scenario = 2..4 workers x 1..3 operations (raw queries on two texts, model query, update, Row() reads of the worker's own counter, transactions with one and two statements incl. increment-then-Row()) x 0..2 Reset() + Close() (early or at the end) x {config-level PrepareStmt, session-level PrepareStmt with a session derived per operation} x prepare failures (<=2) x ErrBadConn (<=1) x parking of the three windows inside prepare() on/off; four dedicated scenarios (single-connection pool, one text + failing preparation, Reset during in-flight preparations, one execution held in flight at the driver until everybody else has returned while another execution of the same statement meets a bad connection); " +
 		"one schedule per case: every gorm-level PrepareContext, every prepared-statement execution at the driver and every hook window is parked and released one at a time in a seeded order; distinct = the literal sequence of released calls and controller actions; every schedule is non-trivial (at least two workers share a handle)",
 	Assumptions: []string{
 		"schedules are explored at the driver / ConnPool boundary and at three hook windows; interleavings inside database/sql and the Go runtime are left to the race detector and natural scheduling",
